@@ -58,7 +58,8 @@ def param2json_schema_property(param, required):
             enum = sorted(
                 map(
                     cdd.shared.ast_utils.get_value,
-                    cdd.shared.ast_utils.get_value(parsed_typ.slice).elts,
+                    # `Literal['a']`: a single member is not wrapped in a `Tuple`
+                    getattr(parsed_typ.slice, "elts", (parsed_typ.slice,)),
                 )
             )
             _param.update(
